@@ -111,7 +111,7 @@ func CheckFieldIsStr(objName, fieldName string, tv reflect.Value) (err error) {
 	switch tv.Kind() {
 	case reflect.String:
 	default:
-		err = fmt.Errorf(GetJoinValidErrStr(objName, fieldName, tv.String(), ExplainEn, "it must is string"))
+		err = fmt.Errorf("%s", GetJoinValidErrStr(objName, fieldName, tv.String(), ExplainEn, "it must is string"))
 	}
 	return
 }
